@@ -71,6 +71,28 @@ pub fn run(ctx: &Ctx) {
             }
         }
     });
+    if ctx.thorough() {
+        // two deviating numeric fields at once (legacy with chain id): every pair of fields x a reduced literal alphabet squared
+        let few: Vec<J> = lits.iter().filter(|l| matches!(l, J::Num(_)) || matches!(l, J::Str(s) if s.len() < 12)).cloned().collect();
+        let fields = [("nonce", 0usize), ("gasPrice", 1), ("gas", 2), ("value", 4)]; let mut pairs = Vec::new(); for a in 0..fields.len() { for b in a + 1..fields.len() { pairs.push((a, b)); } }
+        let n = (pairs.len() * few.len() * few.len()) as u64;
+        ctx.sweep("numeric-literal-pairs", "legacy transactions with two deviating numeric fields: 6 field pairs x the (short) literal alphabet squared; accepted iff both literals are acceptable, and then both values are read back exactly", n, |i| {
+            let (pa, pb) = pairs[i as usize / (few.len() * few.len())]; let la = &few[(i as usize / few.len()) % few.len()]; let lb = &few[i as usize % few.len()];
+            let tx = txjson::template(Kind::Legacy, true); let mut f = txjson::tx_fields(&tx, Spell::Auto); txjson::set(&mut f, fields[pa].0, Some(la.clone())); txjson::set(&mut f, fields[pb].0, Some(lb.clone()));
+            let text = J::Obj(f).to_text(); let (ca, cb) = (classify_ranged(la, 256, false), classify_ranged(lb, 256, false));
+            let replay = json!({"sweep": "numeric-literal-pairs", "index": i, "entry": "serde_json::from_str::<Transaction>", "transaction_json": text});
+            let shape = format!("pair:{}+{}", lit_shape(la), lit_shape(lb));
+            match observe_tx(&text, &sig) {
+                Err(p) => { ctx.eval(format!("{shape}:panic")); ctx.panic_violation(format!("{P}:tx:{shape}:panic@{}", explore::panic_site(&p)), format!("panics: {p}"), replay) }
+                Ok(Err(e)) => { ctx.eval("pair:rejected"); if matches!(ca, Class::Accept(_)) && matches!(cb, Class::Accept(_)) { ctx.violation(format!("{P}:tx:{shape}:rejected"), format!("both spellings must be read but the document is rejected: {e}"), replay) } }
+                Ok(Ok(o)) => { ctx.eval("pair:accepted");
+                    // the signature names the class of the offending literal alone, exactly as the single-field sweep does
+                    if ca == Class::Reject || cb == Class::Reject { ctx.violation(format!("{P}:tx:{}:accepted", lit_shape(if ca == Class::Reject { la } else { lb })), format!("{} = {} and {} = {}: at least one is not an integer in range but the document is accepted", fields[pa].0, la.to_text(), fields[pb].0, lb.to_text()), replay); return; }
+                    let items = match decode_signed(&o.encoded) { Ok((_, it)) => it, Err(e) => { ctx.violation(format!("{P}:tx:{shape}:not-canonical"), e, replay); return; } };
+                    for (pos, c) in [(fields[pa].1, &ca), (fields[pb].1, &cb)] { if let Class::Accept(v) | Class::Unc(v) = c { if rlp::as_uint(&items[pos]) != Some(v.mag.clone()) { ctx.violation(format!("{P}:tx:{shape}:other-value"), "a field was read as another value when two fields deviate", replay.clone()); } } } }
+            }
+        });
+    }
     // byte fields, recipients, storage keys
     let a20 = [0xabu8, 0xcd, 0xef, 0x01, 0x23, 0x45, 0x67, 0x89, 0xab, 0xcd, 0xef, 0x01, 0x23, 0x45, 0x67, 0x89, 0xab, 0xcd, 0xef, 0x01];
     let mixed_wrong: String = { let c = eip55(&a20); c.chars().map(|ch| if ch.is_ascii_lowercase() { ch.to_ascii_uppercase() } else if ch.is_ascii_uppercase() { ch.to_ascii_lowercase() } else { ch }).collect::<String>().replacen("0X", "0x", 1) };
